@@ -178,6 +178,16 @@ def get_comment(
             # We don't add this space to the generated file.
             lines = [line[1:] if line and line[0] == " " else line for line in lines]
 
+            # The comment becomes a docstring: keep backslashes literal and do not
+            # let quotes in the comment terminate the string early.
+            lines = [
+                line.replace("\\", "\\\\").replace('"""', '\\"\\"\\"')
+                for line in lines
+            ]
+            lines = [
+                line[:-1] + '\\"' if line.endswith('"') else line for line in lines
+            ]
+
             # This is a field, message, enum, service, or method
             if len(lines) == 1 and len(lines[0]) < 79 - indent - 6:
                 return f'{pad}"""{lines[0]}"""'
